@@ -307,7 +307,9 @@ def judge(mod, rec, known_entries):
     worst = ('ok', None)
     for mode, impl in rec['impl'].items():
         cmp_ = getattr(mod, 'equal', None)
-        eq_spec = cmp_(rec['case'], impl, rec['spec'], mode) if cmp_ else results_equal(impl, rec['spec'], mode)
+        sok = getattr(mod, 'spec_ok', None)
+        eq_spec = (sok(rec['case'], impl, rec['spec'], mode) if sok else
+                   cmp_(rec['case'], impl, rec['spec'], mode) if cmp_ else results_equal(impl, rec['spec'], mode))
         eq_model = cmp_(rec['case'], impl, rec['model'], mode) if cmp_ else results_equal(impl, rec['model'], mode)
         if eq_spec and eq_model:
             continue
